@@ -23,7 +23,7 @@ theorem ff_combine (vs ve N k n A B Ak Bk nk S E0 E : Int) (hk : 0 < k) (h0 : 0 
     (hB : 0 ≤ B ∧ B ≤ n ∧ (E0 = vs + Bk ∨ (B = 0 ∧ E0 < vs) ∨ (B = n ∧ ve ≤ E0)))
     (hE : E = min ve E0)
     (m1 : A < B → Ak + k ≤ Bk) (m2 : B ≤ A → Bk ≤ Ak)
-    (m3 : B < n → Bk + k ≤ nk) (m4 : B = n → Bk = nk) (m5 : n ≤ A → nk ≤ Ak) (m6 : 0 ≤ Ak) (m7 : 0 ≤ Bk) :
+    (m3 : B < n → Bk + k ≤ nk) (m4 : B = n → Bk = nk) (m5 : n ≤ A → nk ≤ Ak) (m6 : 0 ≤ Ak) (_m7 : 0 ≤ Bk) :
     (A < B → ¬ (S < 0 ∨ E0 < 0) ∧ ¬ E0 < S ∧ ¬ S > N ∧ 0 ≤ S ∧ S < E ∧ E ≤ N ∧ S = vs + Ak ∧
         Bk - Ak - k < E - S ∧ E - S ≤ Bk - Ak) ∧
     (B ≤ A → (S < 0 ∨ E0 < 0) ∨ E0 < S ∨ S > N ∨ (0 ≤ S ∧ 0 ≤ E ∧ E ≤ S)) := by
